@@ -14,7 +14,11 @@ import (
 	"fmt"
 	"net/http"
 	"net/http/httptest"
+	"os"
+	"path/filepath"
 	"reflect"
+	"runtime/debug"
+	"strconv"
 	"strings"
 	"testing"
 
@@ -28,6 +32,9 @@ import (
 
 func init() {
 	logx.Disable()
+	// the process accumulates tens of thousands of reflect.StructOf types and tag-cache
+	// entries (a large, long-lived heap): collect less often
+	debug.SetGCPercent(400)
 }
 
 // Known findings: every failure that matches one of the narrow predicates of the
@@ -46,6 +53,9 @@ func c05Finish(v kit.Verdict, o *c05Oracle, depth int) kit.Verdict {
 	v.NonTrivial = o.hot || depth >= 3
 	if depth >= 3 {
 		o.class("nesting>=2")
+	}
+	if depth >= 7 {
+		o.class("size:nesting>=6")
 	}
 	if o.notPlain {
 		o.class("doc:unspecified-part")
@@ -100,12 +110,28 @@ func c05Target(c *c05Case) (reflect.Value, bool) {
 }
 
 func c05Run(ep string, d *c05JV, target any) c05Outcome {
+	if strings.HasPrefix(ep, "native:") {
+		seed, _ := strconv.ParseUint(strings.TrimPrefix(ep, "native:"), 10, 64)
+		m, _ := c05Native(d, c05Mix(seed, 0), true).(map[string]any)
+		return c05Call(func() error { return mapping.UnmarshalKey(m, target) })
+	}
 	switch ep {
 	case "key":
 		m, _ := d.toAny().(map[string]any)
 		return c05Call(func() error { return mapping.UnmarshalKey(m, target) })
 	case "reader":
 		return c05Call(func() error { return mapping.UnmarshalJsonReader(strings.NewReader(d.JSON()), target) })
+	case "map":
+		m, _ := d.toAny().(map[string]any)
+		return c05Call(func() error { return mapping.UnmarshalJsonMap(m, target) })
+	case "opts1", "opts2":
+		// variadic options: one or two no-op options must behave like none
+		id := mapping.WithCanonicalKeyFunc(func(s string) string { return s })
+		opts := []mapping.UnmarshalOption{id}
+		if ep == "opts2" {
+			opts = append(opts, id)
+		}
+		return c05Call(func() error { return mapping.UnmarshalJsonBytes([]byte(d.JSON()), target, opts...) })
 	}
 	return c05Call(func() error { return mapping.UnmarshalJsonBytes([]byte(d.JSON()), target) })
 }
@@ -180,6 +206,7 @@ func c05History(ws []c05Warm) string {
 
 func c05InterpJSON(c c05Case) (v kit.Verdict) {
 	defer c05EnvCleanup()
+	c.D = c.D.expand()
 	if msg := c05History(c.W); msg != "" {
 		return kit.Verdict{Fail: msg, Classes: []string{"history-panic"}}
 	}
@@ -187,8 +214,21 @@ func c05InterpJSON(c c05Case) (v kit.Verdict) {
 	if !ok || c.D.T != "obj" {
 		return kit.Verdict{Excluded: true, Classes: []string{"unbuildable-shape"}}
 	}
-	out := c05Run(c.EP, &c.D, target.Interface())
+	if strings.HasPrefix(c.EP, "fault") {
+		return c05InterpFault(&c, target)
+	}
+	if c.EP == "custom" && c.CU != nil {
+		return c05InterpCustom(&c, target)
+	}
+	ep := c.EP
+	if ep == "native" {
+		ep = "native:" + strconv.Itoa(c.FP)
+	}
+	out := c05Run(ep, &c.D, target.Interface())
 	o := c05NewOracle()
+	if c.EP == "native" {
+		o.unspec("native-values") // acceptance is never demanded for hand-built maps
+	}
 	res := reflect.Value{}
 	if out.Panic == nil && out.Err == nil {
 		res = target.Elem()
@@ -200,7 +240,7 @@ func c05InterpJSON(c c05Case) (v kit.Verdict) {
 	}
 	v.Fail, v.Known = c05Judge(o, out, "Unmarshal("+c.EP+")", func() string { return c05Describe(&c) })
 	if v.Fail == "" && res.IsValid() {
-		v.Fail = c05Repeat(o, &c, res, "Unmarshal("+c.EP+")", func(t any) c05Outcome { return c05Run(c.EP, &c.D, t) })
+		v.Fail = c05Repeat(o, &c, res, "Unmarshal("+c.EP+")", func(t any) c05Outcome { return c05Run(ep, &c.D, t) })
 	}
 	return c05Finish(v, o, c05Depth(c.S))
 }
@@ -221,11 +261,59 @@ func c05Repeat(o *c05Oracle, c *c05Case, first reflect.Value, what string, run f
 		return fmt.Sprintf("P0 second %s of the same document panicked: %v | %s", what, out2.Panic, c05Describe(c))
 	case out2.Err != nil:
 		return fmt.Sprintf("P1 second %s of the same document failed after the caller modified the first result: %v | %s", what, out2.Err, c05Describe(c))
-	case !reflect.DeepEqual(snapshot.Interface(), t2.Elem().Interface()):
+	case !c05DeepEq(snapshot, t2.Elem()):
 		return fmt.Sprintf("P1 second %s of the same document gives %s, the first gave %s (the caller modified the first result in between) | %s",
 			what, c05Sprint(t2.Elem()), c05Sprint(snapshot), c05Describe(c))
 	}
 	return ""
+}
+
+// c05DeepEq: reflect.DeepEqual, except that NaN equals NaN (",string" and string-valued
+// sources accept the text "NaN" for float fields).
+func c05DeepEq(a, b reflect.Value) bool {
+	if a.Kind() != b.Kind() {
+		return false
+	}
+	switch a.Kind() {
+	case reflect.Float32, reflect.Float64:
+		x, y := a.Float(), b.Float()
+		return x == y || (x != x && y != y)
+	case reflect.Ptr:
+		if a.IsNil() || b.IsNil() {
+			return a.IsNil() == b.IsNil()
+		}
+		return c05DeepEq(a.Elem(), b.Elem())
+	case reflect.Struct:
+		for i := 0; i < a.NumField(); i++ {
+			if !c05DeepEq(a.Field(i), b.Field(i)) {
+				return false
+			}
+		}
+		return true
+	case reflect.Slice:
+		if a.IsNil() != b.IsNil() || a.Len() != b.Len() {
+			return false
+		}
+		for i := 0; i < a.Len(); i++ {
+			if !c05DeepEq(a.Index(i), b.Index(i)) {
+				return false
+			}
+		}
+		return true
+	case reflect.Map:
+		if a.IsNil() != b.IsNil() || a.Len() != b.Len() {
+			return false
+		}
+		it := a.MapRange()
+		for it.Next() {
+			bv := b.MapIndex(it.Key())
+			if !bv.IsValid() || !c05DeepEq(it.Value(), bv) {
+				return false
+			}
+		}
+		return true
+	}
+	return reflect.DeepEqual(a.Interface(), b.Interface())
 }
 
 // c05DeepCopy copies a value built from the generated kinds.
@@ -324,6 +412,133 @@ func c05ScribbleScalar(v reflect.Value) {
 	}
 }
 
+// c05InterpCustom: unmarshalers made by the caller (shared and per-instance configuration).
+// Three instances live side by side: u1 and u3 are built from the SAME options slice
+// (WithStringValues and/or WithCanonicalKeyFunc), u2 is a plain instance for the same tag.
+// Each is an independent model: u2 is run before and after u1 and must not change; u3 must
+// agree with u1; u1 is judged by the oracle with the instance's settings.
+func c05InterpCustom(c *c05Case, target reflect.Value) (v kit.Verdict) {
+	var opts []mapping.UnmarshalOption
+	if c.CU.Str {
+		opts = append(opts, mapping.WithStringValues())
+	}
+	fn := c05CanonFn(c.CU.Canon)
+	if fn != nil {
+		opts = append(opts, mapping.WithCanonicalKeyFunc(fn))
+	}
+	u1 := mapping.NewUnmarshaler(c.CU.Tag, opts...)
+	u2 := mapping.NewUnmarshaler(c.CU.Tag)
+	u3 := mapping.NewUnmarshaler(c.CU.Tag, opts...)
+	doc1 := c.D
+	if fn != nil {
+		doc1 = c.D.mapKeys(fn)
+	}
+	run := func(u *mapping.Unmarshaler, d *c05JV, t reflect.Value) c05Outcome {
+		m, _ := d.toAny().(map[string]any)
+		return c05Call(func() error { return u.Unmarshal(m, t.Interface()) })
+	}
+	typ := target.Type().Elem()
+	t2a, t2b, t3 := reflect.New(typ), reflect.New(typ), reflect.New(typ)
+	o2a := run(u2, &c.D, t2a)
+	out := run(u1, &doc1, target)
+	o2b := run(u2, &c.D, t2b)
+	o3 := run(u3, &doc1, t3)
+
+	o := c05NewOracle()
+	o.allStr, o.keyFn = c.CU.Str, fn
+	res := reflect.Value{}
+	if out.Panic == nil && out.Err == nil {
+		res = target.Elem()
+	}
+	o.walkStruct(c.S, &doc1, res, "")
+	o.class("ep:custom")
+	o.class(fmt.Sprintf("custom:str=%v,canon=%s", c.CU.Str, c.CU.Canon))
+	desc := func() string {
+		return fmt.Sprintf("NewUnmarshaler(%q, stringValues=%v, canonicalKey=%q) %s", c.CU.Tag, c.CU.Str, c.CU.Canon, c05Describe(&c05Case{S: c.S, D: doc1}))
+	}
+	v.Fail, v.Known = c05Judge(o, out, "custom Unmarshal", desc)
+	same := func(a, b c05Outcome, ta, tb reflect.Value) bool {
+		if (a.Panic == nil) != (b.Panic == nil) || (a.Err == nil) != (b.Err == nil) {
+			return false
+		}
+		return a.Err != nil || a.Panic != nil || c05DeepEq(ta.Elem(), tb.Elem())
+	}
+	switch {
+	case v.Fail != "":
+	case o2a.Panic != nil && c05PanicKnown(o, fmt.Sprint(o2a.Panic)) == "":
+		v.Fail = fmt.Sprintf("P0 the plain instance panicked: %v | %s", o2a.Panic, desc())
+	case !same(o2a, o2b, t2a, t2b):
+		v.Fail = fmt.Sprintf("P1 a plain NewUnmarshaler(%q) instance behaves differently after another instance with options was used: before err=%v %s, after err=%v %s | %s",
+			c.CU.Tag, o2a.Err, c05Sprint(t2a.Elem()), o2b.Err, c05Sprint(t2b.Elem()), desc())
+	case !same(out, o3, target, t3):
+		v.Fail = fmt.Sprintf("P1 two instances built from the same options disagree: err=%v %s vs err=%v %s | %s",
+			out.Err, c05Sprint(target.Elem()), o3.Err, c05Sprint(t3.Elem()), desc())
+	}
+	if v.Fail == "" && !c.CU.Str && o2a.Panic == nil {
+		// the plain instance, alive next to the configured ones, is held to the plain oracle
+		op := c05NewOracle()
+		r2 := reflect.Value{}
+		if o2a.Err == nil {
+			r2 = t2a.Elem()
+		}
+		op.walkStruct(c.S, &c.D, r2, "")
+		v.Fail, v.Known = c05Judge(op, o2a, "plain instance Unmarshal", desc)
+	}
+	return c05Finish(v, o, c05Depth(c.S))
+}
+
+// c05FaultReader delivers a strict prefix of the document, then fails.
+type c05FaultReader struct {
+	data []byte
+	pos  int
+}
+
+var errC05Fault = fmt.Errorf("c05: injected read fault")
+
+func (r *c05FaultReader) Read(p []byte) (int, error) {
+	if r.pos >= len(r.data) {
+		return 0, errC05Fault
+	}
+	n := copy(p, r.data[r.pos:])
+	if n > 7 && len(r.data) < 4096 {
+		n = 7 // short reads (small documents only: the decoder's buffering is quadratic in the number of reads)
+	}
+	r.pos += n
+	return n, nil
+}
+
+// c05InterpFault: the reader fails inside the document (partial result then failure):
+// the reader entry points must return an error, never a struct filled from the prefix.
+func c05InterpFault(c *c05Case, target reflect.Value) (v kit.Verdict) {
+	doc := c.D.JSON()
+	if c.EP == "faultyaml" {
+		doc = c.D.YAML(c.Y)
+	}
+	cut := len(doc) * (c.FP % 1000) / 1000
+	if cut > len(doc)-2 {
+		cut = len(doc) - 2
+	}
+	if cut < 0 {
+		return kit.Verdict{Excluded: true, Classes: []string{"fault:doc-too-short"}}
+	}
+	r := &c05FaultReader{data: []byte(doc[:cut])}
+	var out c05Outcome
+	if c.EP == "faultyaml" {
+		out = c05Call(func() error { return mapping.UnmarshalYamlReader(r, target.Interface()) })
+	} else {
+		out = c05Call(func() error { return mapping.UnmarshalJsonReader(r, target.Interface()) })
+	}
+	v.Classes = []string{"ep:" + c.EP, "fault:reader-fails-mid-document"}
+	v.NonTrivial = true
+	switch {
+	case out.Panic != nil:
+		v.Fail = fmt.Sprintf("P0 %s panicked on a failing reader: %v | %s", c.EP, out.Panic, c05Describe(c))
+	case out.Err == nil:
+		v.Fail = fmt.Sprintf("P1 %s returned nil although the reader failed after %d of %d bytes | %s", c.EP, cut, len(doc), c05Describe(c))
+	}
+	return v
+}
+
 func TestVerif_C05_json(t *testing.T) {
 	kit.Run(t, "C05", "json", kit.Opts{Quick: 40000, Thorough: 1600000}, c05GenCase, c05InterpJSON)
 }
@@ -332,6 +547,7 @@ func TestVerif_C05_json(t *testing.T) {
 
 func c05InterpYAML(c c05Case) (v kit.Verdict) {
 	defer c05EnvCleanup()
+	c.D = c.D.expand()
 	if msg := c05History(c.W); msg != "" {
 		return kit.Verdict{Fail: msg, Classes: []string{"history-panic"}}
 	}
@@ -343,7 +559,12 @@ func c05InterpYAML(c c05Case) (v kit.Verdict) {
 	js := c.D.JSON()
 	ys := c.D.YAML(c.Y)
 	oj := c05Call(func() error { return mapping.UnmarshalJsonBytes([]byte(js), tj.Interface()) })
-	oy := c05Call(func() error { return mapping.UnmarshalYamlBytes([]byte(ys), ty.Interface()) })
+	oy := c05Call(func() error {
+		if c.EP == "reader" {
+			return mapping.UnmarshalYamlReader(strings.NewReader(ys), ty.Interface())
+		}
+		return mapping.UnmarshalYamlBytes([]byte(ys), ty.Interface())
+	})
 	o := c05NewOracle()
 	res := reflect.Value{}
 	if oy.Panic == nil && oy.Err == nil {
@@ -351,6 +572,7 @@ func c05InterpYAML(c c05Case) (v kit.Verdict) {
 	}
 	o.walkStruct(c.S, &c.D, res, "")
 	o.class(fmt.Sprintf("yaml-style:%d", c.Y))
+	o.class("yaml-ep:" + c.EP)
 	desc := func() string { return c05Describe(&c) + " yaml " + fmt.Sprintf("%q", ys) }
 	v.Fail, v.Known = c05Judge(o, oy, "UnmarshalYamlBytes", desc)
 	if oy.Panic != nil && v.Known == "" {
@@ -397,13 +619,16 @@ func c05GenYAMLCase(rt *rapid.T) c05Case {
 	var c c05Case
 	c.S = c05GenFields(rt, cfg, 1, 6, "")
 	mode := c05W(rt, "docmode", []string{"mixed", "plain", "hostile", "focus"}, []int{20, 40, 10, 30})
-	g := &c05DocGen{rt: rt, plain: mode == "plain", hostile: 6, focus: mode == "focus"}
+	g := &c05DocGen{rt: rt, plain: mode == "plain", hostile: 6, focus: mode == "focus", big: c05Rare(rt, "bigcase", 100), wideKeys: true}
 	if mode == "hostile" {
 		g.hostile = 30
 	}
 	c.D = g.object(c.S, 1)
 	c.Y = rapid.IntRange(0, 1).Draw(rt, "yamlstyle")
 	c.W = c05GenWarmups(rt)
+	if rapid.IntRange(0, 3).Draw(rt, "yamlreader") == 1 {
+		c.EP = "reader"
+	}
 	return c
 }
 
@@ -415,8 +640,9 @@ func TestVerif_C05_yaml(t *testing.T) {
 
 type c05ConfCase struct {
 	S  []c05Fld `json:"s"`
-	D  c05JV    `json:"d"`  // keys as declared
-	D2 c05JV    `json:"d2"` // keys of declared fields respelled (snake_case / flipped initial)
+	D  c05JV    `json:"d"`           // keys as declared
+	D2 c05JV    `json:"d2"`          // keys of declared fields respelled (snake_case / flipped initial)
+	F  string   `json:"f,omitempty"` // the first load goes through conf.Load on a file with this extension (.json .yaml .yml .YML .Json)
 	Y  int      `json:"y,omitempty"`
 }
 
@@ -469,12 +695,12 @@ func c05RespellValue(rt *rapid.T, t *c05Typ, v c05JV) c05JV {
 	switch {
 	case t.K == "struct" && v.T == "obj":
 		return c05Respell(rt, t.F, v)
-	case t.K == "slice" && v.T == "arr":
+	case t.K == "slice" && (v.T == "arr" || v.T == "rep"):
 		l := make([]c05JV, len(v.L))
 		for i := range v.L {
 			l[i] = c05RespellValue(rt, t.E, v.L[i])
 		}
-		return c05JV{T: "arr", L: l}
+		return c05JV{T: v.T, N: v.N, L: l}
 	case t.K == "map" && v.T == "obj":
 		m := make([]c05KV, len(v.M))
 		for i := range v.M {
@@ -490,15 +716,17 @@ func c05GenConfCase(rt *rapid.T) c05ConfCase {
 	var c c05ConfCase
 	c.S = c05GenFields(rt, cfg, 1, 6, "")
 	mode := c05W(rt, "docmode", []string{"mixed", "plain", "focus"}, []int{15, 50, 35})
-	g := &c05DocGen{rt: rt, plain: mode == "plain", hostile: 5, focus: mode == "focus"}
+	g := &c05DocGen{rt: rt, plain: mode == "plain", hostile: 5, focus: mode == "focus", big: c05Rare(rt, "bigcase", 300)}
 	c.D = g.object(c.S, 1)
 	c.D2 = c05Respell(rt, c.S, c.D)
+	c.F = c05W(rt, "conffile", []string{"", ".json", ".yaml", ".yml", ".YML", ".Json"}, []int{80, 6, 5, 4, 3, 2})
 	c.Y = rapid.IntRange(0, 1).Draw(rt, "yamlstyle")
 	return c
 }
 
 func c05InterpConf(c c05ConfCase) (v kit.Verdict) {
 	defer c05EnvCleanup()
+	c.D, c.D2 = c.D.expand(), c.D2.expand()
 	cc := c05Case{S: c.S, D: c.D}
 	t1, ok := c05Target(&cc)
 	if !ok || c.D.T != "obj" || c.D2.T != "obj" {
@@ -508,10 +736,32 @@ func c05InterpConf(c c05ConfCase) (v kit.Verdict) {
 	t3 := reflect.New(t1.Type().Elem())
 	j1, j2, y2 := c.D.JSON(), c.D2.JSON(), c.D2.YAML(c.Y)
 	o1 := c05Call(func() error { return conf.LoadFromJsonBytes([]byte(j1), t1.Interface()) })
+	tf := reflect.New(t1.Type().Elem())
+	yamlFile := strings.HasPrefix(strings.ToLower(c.F), ".y")
+	of := c05Call(func() error {
+		if c.F == "" {
+			return nil
+		}
+		// what the user does: a file on disk, the loader chosen by its extension
+		content := j1
+		if strings.HasPrefix(strings.ToLower(c.F), ".y") {
+			content = c.D.YAML(c.Y)
+		}
+		c05FileSeq++
+		path := filepath.Join(kit.WorkDir(), fmt.Sprintf("c05-conf-%d%s", c05FileSeq, c.F))
+		if err := os.WriteFile(path, []byte(content), 0o600); err != nil {
+			panic("c05: cannot write " + path + ": " + err.Error())
+		}
+		defer os.Remove(path)
+		return conf.Load(path, tf.Interface())
+	})
 	o2 := c05Call(func() error { return conf.LoadFromJsonBytes([]byte(j2), t2.Interface()) })
 	o3 := c05Call(func() error { return conf.LoadFromYamlBytes([]byte(y2), t3.Interface()) })
 	o := c05NewOracle()
 	o.canonKeys = true
+	if c.F != "" {
+		o.class("conf-file:" + strings.ToLower(c.F))
+	}
 	res := reflect.Value{}
 	if o1.Panic == nil && o1.Err == nil {
 		res = t1.Elem()
@@ -545,6 +795,19 @@ func c05InterpConf(c c05ConfCase) (v kit.Verdict) {
 			v.Fail = fmt.Sprintf("P4 YAML with respelled keys gives a different struct: %s vs %s | %s", c05Sprint(t1.Elem()), c05Sprint(t3.Elem()), desc())
 		}
 	}
+	if v.Fail == "" && c.F != "" && o1.Panic == nil {
+		// conf.Load(file): JSON files behave exactly like the bytes; YAML files are compared on plain content
+		switch {
+		case of.Panic != nil:
+			v.Fail = fmt.Sprintf("P0 conf.Load(%s file) panicked: %v | %s", c.F, of.Panic, desc())
+		case !yamlFile && (o1.Err == nil) != (of.Err == nil):
+			v.Fail = fmt.Sprintf("P4 conf.Load(%s file): err=%v, conf.LoadFromJsonBytes of the same bytes: err=%v | %s", c.F, of.Err, o1.Err, desc())
+		case yamlFile && plain && of.Err != nil:
+			v.Fail = fmt.Sprintf("P4 conf.Load(%s file) rejected plain content: %v | %s", c.F, of.Err, desc())
+		case o1.Err == nil && of.Err == nil && (!yamlFile || plain) && !reflect.DeepEqual(t1.Elem().Interface(), tf.Elem().Interface()):
+			v.Fail = fmt.Sprintf("P4 conf.Load(%s file) gives %s, the bytes give %s | %s", c.F, c05Sprint(tf.Elem()), c05Sprint(t1.Elem()), desc())
+		}
+	}
 	if v.Fail == "" && res.IsValid() {
 		v.Fail = c05Repeat(o, &cc, res, "conf.LoadFromJsonBytes", func(t any) c05Outcome {
 			return c05Call(func() error { return conf.LoadFromJsonBytes([]byte(j2), t) })
@@ -556,5 +819,7 @@ func c05InterpConf(c c05ConfCase) (v kit.Verdict) {
 func TestVerif_C05_conf(t *testing.T) {
 	kit.Run(t, "C05", "conf", kit.Opts{Quick: 10000, Thorough: 320000}, c05GenConfCase, c05InterpConf)
 }
+
+var c05FileSeq int
 
 var _ = rapid.Bool
